@@ -105,9 +105,7 @@ Proof.
     + pose proof (fv_dyn _ _ A k ltac:(lia) L). lia.
   - intros k. apply sync_at_same with (s := s); try reflexivity. apply B.
   - destruct C. constructor; sp; try assumption.
-    + intros j J. specialize (dy_kern j J). destruct (efd_raw s =? 0); [eapply pipe_ok_same|eapply evfd_ok_same]; eassumption.
-    + rewrite FL. assumption.
-    + rewrite FL. assumption.
+    + intros j J. specialize (dy_kern j J). dyk; [eapply pipe_ok_same|eapply evfd_ok_same]; eassumption.
     + intros J. destruct (dy_act J) as (X & (v & V1 & V2) & W). split; [assumption|]. split.
       * exists v. rewrite BIG by assumption. tauto.
       * destruct W as [W|W]; [left; assumption|right; eapply pipe_ok_same; eassumption].
